@@ -4,8 +4,8 @@ Q=["quick","thorough"];T=["thorough"]
 H=[{"name":"H_witness","tiers":Q,"expect":"violation","bounds":"vacuity witness"}]
 H.append({"name":"H_lru","tiers":Q,"bounds":"chunk size 1..3, 1..2 cache entries, file length 0..5 (fully symbolic), every sequence of 3 operations (Seek with whence x symbolic offset in [-2,len+2], or Read of 0..4 bytes)",
   "param_sets":[{"cs":cs,"ne":ne,"n":n,"nops":3} for cs in (1,2,3) for ne in (1,2) for n in (0,2,4)]})
-H.append({"name":"H_lru","tiers":T,"bounds":"chunk size 1..3, 1..3 entries, file length 0..6, every sequence of 4 operations (chunk size 4: file length 0..2)","max_seconds":900,
-  "param_sets":[{"cs":cs,"ne":ne,"n":n,"nops":4} for cs in (1,2,3,4) for ne in (1,2,3) for n in range(0,7) if not (cs==4 and n>=3)]})
+H.append({"name":"H_lru","tiers":T,"bounds":"chunk size 1..3, 1..3 entries, file length 0..4, every sequence of 4 operations (chunk size 4: file length 0..2; longer files exhaust the path budget)","max_seconds":900,
+  "param_sets":[{"cs":cs,"ne":ne,"n":n,"nops":4} for cs in (1,2,3,4) for ne in (1,2,3) for n in range(0,5) if not (cs==4 and n>=3)]})
 scale=[{"set":"s","file":"bsdiff/diff.go","func":"Do","match":"128 * 1024","value":"4"},
  {"set":"s","file":"bsdiff/patch.go","func":"NewIndividualPatchContext","ident":"minBufferSize","value":"2"},
  {"set":"s","file":"bsdiff/patch.go","func":"NewIndividualPatchContext","ident":"lruChunkSize","value":"2"},
